@@ -9,7 +9,7 @@
 (***************************************************************************)
 EXTENDS IntEval, Json
 
-CONSTANTS Randomize, Depth, VecPool, SVecPool, ScalePool, ScalarPool, OpPool, Modes, RlkKinds, FreeFrom, SimLen
+CONSTANTS Randomize, Depth, VecPool, SVecPool, ScalePool, ScalarPool, OpPool, Modes, RlkKinds, FreeFrom, SimLen, Prefix
 
 VARIABLE hist
 gvars == <<reg, mode, rlk, hist>>
@@ -66,14 +66,23 @@ GenReset ==
         /\ Reset(md, rk)
         /\ hist' = Append(hist, [op |-> "Reset", mode |-> md, rlk |-> rk])
 
-\* a program starts with a Reset, then loads every register, then is free
+\* a fixed prefix (a "preset" register file reached through real calls) ...
+PrefixStep(st) ==
+    /\ CASE st.op = "Reset" -> Reset(st.mode, st.rlk)
+         [] st.op = "Load"  -> Load(st.o, st.v, st.s, st.lvl)
+         [] OTHER           -> \E ch \in {[s |-> s, deg |-> d, err |-> e] : s \in ScalePool, d \in 1..2, e \in BOOLEAN} :
+                                    Call(st, ch) /\ ch.deg = MinDeg(st, ch)
+    /\ hist' = Append(hist, st)
+
+\* ... or a Reset followed by a load of every register; then the program is free
 GenNext ==
-    \/ /\ Len(hist) = 0 /\ GenReset
-    \/ /\ Len(hist) \in 1..NR
+    \/ /\ Len(hist) < Len(Prefix) /\ PrefixStep(Prefix[Len(hist) + 1])
+    \/ /\ Prefix = <<>> /\ Len(hist) = 0 /\ GenReset
+    \/ /\ Prefix = <<>> /\ Len(hist) \in 1..NR
        /\ \E v \in Pick(VecPool) : \E s \in Pick(ScalePool) : \E l \in Pick(FreeFrom..L) :
             /\ Load(Len(hist), v, s, l)
             /\ hist' = Append(hist, [op |-> "Load", o |-> Len(hist), v |-> v, s |-> s, lvl |-> l])
-    \/ /\ Len(hist) > NR /\ Len(hist) < Depth
+    \/ /\ Len(hist) >= (IF Prefix = <<>> THEN NR + 1 ELSE Len(Prefix)) /\ Len(hist) < Depth
        /\ (GenCall \/ GenCall \/ GenCall \/ GenLoad \/ GenDrop \/ GenMatch)
     \/ /\ Randomize /\ UNCHANGED gvars     \* a random draw may hit a disabled call
 
